@@ -24,7 +24,7 @@ ASSUMPTIONS = [
 ]
 COMPONENTS = c04.COMPONENTS
 
-RICH = ["pan", "a b", "x,y", "q\"r", "two\nlines", "", "0x1F", "-1.5e3", "007", "long" * 30, "\u00fc\u00f1\u00ee\u4e2d\u6587", "tab\there", "semi;colon", "eq=ual", "pipe|bar", "#hash",
+RICH = ["pan", "a b", "x,y", "q\"r", "two\nlines", "x\n\ny", "\n", "end\n", "", "0x1F", "-1.5e3", "007", "long" * 30, "\u00fc\u00f1\u00ee\u4e2d\u6587", "tab\there", "semi;colon", "eq=ual", "pipe|bar", "#hash",
         "back\\slash", "  lead", "trail  ", "\"", "\"\"", ",", "a\"b\"c", "{json}", "[1,2]", "true", "\u2603 snow", "e\u0301", "-", "=", "x" * 5000]
 PLAIN = ["pan", "eks", "wye", "zee", "0x1F", "-1.5e3", "007", "long" * 30, "\u00fc\u00f1\u00ee\u4e2d\u6587", "hat-1", "a.b", "Z_9", "\u2603snow", "x" * 300]
 
@@ -120,11 +120,13 @@ def build_case(r, tier):
     if fmt == "pprint" and "--barred" in wopts:
         # R8: the barred reader trims padded cells with strings.TrimSpace, so values beginning or ending in (any Unicode)
         # white space are outside the domain of that variant
-        recs = [[(k, v.strip() or "v") for k, v in rec] for rec in recs]
+        recs = [[(k, (v.strip() or "v") if v != "" else "") for k, v in rec] for rec in recs]
+    crlf_embedded = False
     if fmt == "csv" and "crlf" in wopts:
-        # Go-csv semantics kept by Miller: with CRLF line ends an embedded LF is written as CRLF too (R8: outside the domain)
-        recs = [[(k.replace("\n", " "), v.replace("\n", " ")) for k, v in rec] for rec in recs]
-    return {"kind": "roundtrip", "fmt": fmt, "recs": recs, "wopts": wopts, "ropts": ropts, "cseed": r.randint(1, 1 << 40), "bom": fmt in ("csv", "csvlite") and r.chance(0.2),
+        # Go-csv semantics kept by Miller: with CRLF line ends an embedded LF is written as CRLF too, and read back as LF.
+        # Miller's own round trip holds; an independent reader sees CRLF inside the cell (R8: that comparison is skipped)
+        crlf_embedded = any("\n" in k or "\n" in v for rec in recs for k, v in rec)
+    return {"kind": "roundtrip", "crlf_embedded": crlf_embedded, "fmt": fmt, "recs": recs, "wopts": wopts, "ropts": ropts, "cseed": r.randint(1, 1 << 40), "bom": fmt in ("csv", "csvlite") and r.chance(0.2),
             "nconf": 3 if tier == "quick" else 6}
 
 
@@ -270,7 +272,7 @@ def evaluate(case, chk):
             return vd
     # standard dialect: independent parser on Miller's text; Miller on an independent writer's text
     if fmt in ("csv", "tsv", "json", "jsonl"):
-        indep = independent_parse(case, text)
+        indep = independent_parse(case, text) if not case.get("crlf_embedded") else None
         if indep is not None and indep != want:
             vd.add("independent-parser-disagrees", fmt=fmt, wopts=case["wopts"], n_want=len(want), n_got=len(indep), sample=str(indep[:1])[:300])
             return vd
